@@ -1135,7 +1135,7 @@ DOMServices::isNodeAfter(
                     if (0 == prevChild1) // first time in loop?
                     {
                         // Edge condition: one is the ancestor of the other.
-                        isNodeAfter = (nParents1 < nParents2) ? true : false;
+                        isNodeAfter = (nParents1 > nParents2) ? true : false;
 
                         break; // from while loop
                     }
